@@ -290,3 +290,23 @@ claim(
     "tokens are not reported items.",
     "DESIGN.md section 5 C20",
 )
+
+claim(
+    "C04",
+    "TBL",
+    "static: symbolic skeletons of every __str__ (constants kept, values -> holes) checked against the tag registry and the parsers' keyword sets; field-coverage and bracket-rule tables",
+    "Clauses (necessary conditions of a meaning-preserving round trip): every standard node and "
+    "expression class has a serialiser that reads every slot its render/evaluate reads; each "
+    "node's skeleton is markup and whitespace only, opens with its tag name and, for block tags, "
+    "closes with its end tag; every keyword a serialiser writes is one the matching parser tests "
+    "for (reader/writer agreement, ~70 serialisers); strings and quoted path segments are written "
+    "verbatim without Python escapes, floats positionally, cycle groups through their expression, "
+    "the path root through the same branches as other segments; the logical-expression "
+    "serialiser brackets with the parser's binding powers (and/or equal, right grouping, not as "
+    "operand, comparisons included). 3 open findings (nil/empty/blank print '') are listed.",
+    "Not decided: equality of the re-parsed tree / identical rendering for every template. The "
+    "C04-PREC rule is anchored on the current structure of BooleanExpression.__str__; an "
+    "equivalent rewrite is reported for review. Extra (non-standard) tags without __str__ are "
+    "outside the property.",
+    "DESIGN.md section 5 C04",
+)
